@@ -1,63 +1,17 @@
+/-
+Model driver: one operation per input line (tab-separated fields), one answer
+per output line.  Each engine contributes `Ops.step<Name> : List String → Option String`
+in `Driver/Ops/<Name>.lean`; an operation no engine knows is answered `bad-op`.
+-/
 import Driver.Proto
-import ReuseVerif
+import Driver.Ops.Str
+import Driver.Ops.Ignore
+import Driver.Ops.Glob
 open Proto
-
-def stepStr (fields : List String) : Option String :=
-  match fields with
-  | ["py.strip", s] => do pure (encodeText (Py.strip (← decodeText s)))
-  | ["py.lstrip", s] => do pure (encodeText (Py.lstrip (← decodeText s)))
-  | ["py.rstrip", s] => do pure (encodeText (Py.rstrip (← decodeText s)))
-  | ["py.splitlines", s] => do pure (encodeList (Py.splitLines (← decodeText s)))
-  | ["py.splitlines_keep", s] => do pure (encodeList (Py.splitLines (← decodeText s) true))
-  | ["py.find", p, s] => do pure (encodeNatOpt (Py.findSub (← decodeText p) (← decodeText s)))
-  | ["py.split", sep, s] => do pure (encodeList (Py.splitOn (← decodeText sep) (← decodeText s)))
-  | ["py.replace", s, a, b] => do
-      pure (encodeText (Py.replace (← decodeText s) (← decodeText a) (← decodeText b)))
-  | ["py.isspace", s] => do
-      let t ← decodeText s
-      pure (String.ofList (t.map fun c => if Py.isSpace c then '1' else '0'))
-  | ["py.islinebreak", s] => do
-      let t ← decodeText s
-      pure (String.ofList (t.map fun c => if Py.isLineBreak c then '1' else '0'))
-  | _ => none
-
-def stepIgnore (fields : List String) : Option String :=
-  match fields with
-  | ["filter", s] => do pure (encodeText (Model.filterIgnore (← decodeText s)))
-  | ["specfilter", s] => do
-      pure (encodeText (Spec.specFilter Generated.ignoreStart Generated.ignoreEnd (← decodeText s)))
-  | _ => none
-
-def bits (l : List Bool) : String := String.ofList (l.map fun b => if b then '1' else '0')
-
-def stepGlob (fields : List String) : Option String :=
-  match fields with
-  | ["globrow", g, ps] => do
-      let g ← decodeText g
-      let ps ← decodeList ps
-      pure (bits (ps.map (Model.globMatch g ·)))
-  | ["itemrow", gs, ps] => do
-      let gs ← decodeList gs
-      let ps ← decodeList ps
-      pure (bits (ps.map (Model.itemMatches gs ·)))
-  | ["wfglob", g] => do pure (encodeBool (Spec.wfGlob (← decodeText g)))
-  | _ => none
-
-def stepDep5 (fields : List String) : Option String :=
-  match fields with
-  | ["dep5row", d, ps] => do
-      let d ← decodeText d
-      let ps ← decodeList ps
-      match Model.dep5Blocks d with
-      | none => pure "invalid"
-      | some _ => pure (bits (ps.map (Model.dep5Match d ·)))
-  | ["convglob", d] => do pure (encodeText (Model.convertGlob (← decodeText d)))
-  | ["dep5plain", d] => do pure (encodeBool (Spec.dep5Plain (← decodeText d)))
-  | _ => none
 
 def step (line : String) : String :=
   let fields := line.splitOn "\t"
-  match stepStr fields <|> stepIgnore fields <|> stepGlob fields <|> stepDep5 fields with
+  match Ops.stepStr fields <|> Ops.stepIgnore fields <|> Ops.stepGlob fields <|> Ops.stepDep5 fields with
   | some out => out
   | none => "bad-op"
 
